@@ -94,7 +94,7 @@ def cases(ctx):
     rng = ctx.rng
     g = nprng(rng)
     out = []
-    reps = ctx.scale(3, 10)
+    reps = ctx.scale(3, 60)
     for rep in range(reps):
         for fam in FAMILIES:
             for n in NS:
@@ -121,7 +121,7 @@ def cases(ctx):
         for op in ('kabsch', 'quat'):
             out.append({'op': op, 'P': pts(P), 'Q': pts(Q), 'family': fam + '-exact', 'n': len(P), 'scale_in': 1.0, 'eps': rat(EPS)})
     # guards and dispatch
-    for k in range(ctx.scale(60, 300)):
+    for k in range(ctx.scale(60, 1500)):
         n = rng.choice([1, 2, 3, 10])
         P, Q = make_pair(g, 'generic', n, 10 ** g.uniform(-1, 2))
         kind = ['size', 'offsetP', 'offsetQ', 'tiny', 'method', 'ok'][k % 6]
@@ -138,7 +138,7 @@ def cases(ctx):
             method = rng.choice(['kabsch', 'quat', '', 'svd '])
         out.append({'op': 'guard', 'P': pts(P), 'Q': pts(Q), 'method': method, 'family': 'guard-' + kind, 'n': n, 'eps': rat(EPS)})
     # superpose_selection
-    for k in range(ctx.scale(60, 300)):
+    for k in range(ctx.scale(60, 1500)):
         n = rng.choice([3, 4, 10, 50])
         fam = rng.choice(['generic', 'mirror', 'noisy_copy', 'coplanar'])
         scale = 10 ** g.uniform(-1, 2)
@@ -383,7 +383,7 @@ def extra_checks(ctx):
     cnt = 0
     for fam in FAMILIES:
         for n in NS:
-            for _ in range(ctx.scale(2, 12)):
+            for _ in range(ctx.scale(2, 60)):
                 scale = 10 ** g.uniform(-2, 3)
                 P, Q = make_pair(g, fam, n, scale)
                 Uk = SP.get_rotation_matrix(P.copy(), Q.copy(), 'svd')
